@@ -801,7 +801,6 @@ func c08CompareCoverage(c *Ctx, r *Result) {
 	r.Floor("R08e", n, 1)
 }
 
-
 // treeOrigin: "" when the tree value is, on this path, the result of parser.Parse* applied to text
 // converted from the result of a file read; otherwise a description of what it is.
 func treeOrigin(st *PState, v ssa.Value) string {
